@@ -512,6 +512,7 @@ class VbsWriter(object):
     """
     def __init__(self, out_file: typing.BinaryIO, blocked: bool = False):
         self.out_file = out_file
+        self.finalised = False
         if blocked:
             self.out_file = Block1014(out_file)
 
@@ -558,9 +559,13 @@ class VbsWriter(object):
 
         :return: None
         """
+        # file is finalised once only - a second close (or context manager exit after close) must not touch it
+        if self.finalised:
+            return
         # add zero length to end of record
         self.out_file.write(struct.pack(">I", 0))
         self.out_file.seek(0)
+        self.finalised = True
 
     def __enter__(self, *args, **kwargs):
         return self
